@@ -847,8 +847,8 @@ def expr_ops(prog, fn, op, depth=0, seen=None):
     if depth > 12:
         return out
     if op[0] == 'k':
-        if 'val' in op[1]:
-            out.add(('V', op[1]['val']))
+        if 'val' in op[1] and 'def' not in op[1]:
+            out.add(('V', op[1]['val']))     # literals only; a named constant is identified by its K atom
         return out
     if op[0] not in ('c', 'm'):
         return out
